@@ -341,7 +341,7 @@ def gen_solo(r, maxops=24):
     init = r.choice([0, 1, 1, 5, 8, 9, 18])
     h = dict(kind="solo", init=init, batch=1, ops=[])
     ops = h["ops"]
-    last, chain, queue, dead, stuck, ntx, seen = init, init, [], False, False, 1, []
+    last, seq, chain, queue, dead, stuck, ntx, seen = init, init, init, [], False, False, 1, []
     style = r.choice(["plain", "plain", "plain", "mismatch", "mismatch", "crash"])
     h["style"] = style
     n = r.randrange(6, maxops + 1)
@@ -353,14 +353,17 @@ def gen_solo(r, maxops=24):
                 continue
             ntx += 1
             t = ntx * 100
-            ops.append(["tx", t, 1 if (not dead and not stuck) else 0])
+            ops.append(["tx", t, 1 if (not dead and not stuck and seq == last) else 0])
             if not stuck:
                 seen.append(t)
+                seq += 1
                 if dead:
                     stuck = True
-                else:
+                elif seq == last + 1:
                     last += 1
                     queue.append(last)
+                else:
+                    dead = True
         elif k < 0.65:
             ops.append(["exec"])
             if queue:
@@ -369,7 +372,7 @@ def gen_solo(r, maxops=24):
             ops.append(["report", r.choice([0, 0, 0, 1, 2])])
         elif k < 0.90 and style in ("crash", "mismatch"):
             ops.append(["crash"])
-            last, queue, dead, stuck, seen = chain, [], False, False, []
+            last, seq, queue, dead, stuck, seen = chain, chain, [], False, False, []
         elif style == "mismatch":
             ntx += 1
             hh = max(0, last + r.choice([1, 1, 1, 0, 2, 5]))
